@@ -32,7 +32,7 @@ import (
 func TestMain(m *testing.M) { vt.Main(m) }
 
 type Step struct {
-	Kind   string `json:"kind"`        // post note finish cut resume hclose | sget snote scut sresume
+	Kind   string `json:"kind"`        // post note finish cut resume hclose purge | sget snote scut sresume
 	S      int    `json:"s,omitempty"` // which request stream (mod)
 	I      int    `json:"i,omitempty"` // which previously seen event id (mod) for resume
 	NoWait bool   `json:"nowait,omitempty"`
@@ -57,7 +57,7 @@ func genScript(rt *rapid.T, race bool) Script {
 	n := rapid.IntRange(2, 30).Draw(rt, "n")
 	posts := 0
 	for i := 0; i < n; i++ {
-		kinds := []string{"post", "note", "note", "note", "finish", "cut", "cut", "hclose", "resume", "resume", "resume", "sget", "snote", "snote", "scut", "sresume", "sresume"}
+		kinds := []string{"post", "note", "note", "note", "finish", "cut", "cut", "hclose", "purge", "resume", "resume", "resume", "sget", "snote", "snote", "scut", "sresume", "sresume"}
 		if posts >= 3 {
 			kinds = kinds[1:]
 		}
@@ -425,6 +425,7 @@ func runInBubble(s Script) (res vt.Result) {
 
 	prevNoWait := false
 	hcloses := 0
+	purged := false
 	for i, st := range s.Steps {
 		racing := st.NoWait || prevNoWait // attachment state is not settled: 200 and 409 are both legitimate
 		prevNoWait = st.NoWait
@@ -477,6 +478,14 @@ func runInBubble(s Script) (res vt.Result) {
 				e.ex.Cut(memhttp.ErrCut)
 				desc.WriteString("x")
 			}
+		case "purge":
+			// memory pressure: the store is told to keep at most a few hundred bytes, then gets its budget
+			// back. From now on a resume may be refused (its events are gone); one that is accepted must
+			// still deliver the right messages under the right ids.
+			store.inner.SetMaxBytes([]int{1, 120, 400, 1500}[st.I%4])
+			store.inner.SetMaxBytes(10 << 20)
+			purged = true
+			desc.WriteString("U")
 		case "hclose":
 			if len(streams) == 0 {
 				break
@@ -511,6 +520,10 @@ func runInBubble(s Script) (res vt.Result) {
 				ne.conflict = true
 				res.Class("prompt_resume_conflict")
 			default:
+				if purged && rex.Status() >= 400 && rex.Status() < 500 {
+					ne.conflict = true
+					break
+				}
 				res.Failf("step %d: prompt resume of stream %q after CloseSSEStream answered %d: %s", i, sr.sid, rex.Status(), rex.Written())
 			}
 			sr.exs = append(sr.exs, ne)
@@ -546,6 +559,11 @@ func runInBubble(s Script) (res vt.Result) {
 					res.Failf("step %d: resume of stream %q refused with 409 although no exchange is attached to it", i, sr.sid)
 				}
 			default:
+				if purged && ex.Status() >= 400 && ex.Status() < 500 {
+					e.conflict = true // refused: its events were purged
+					res.Class("resume_refused_after_purge")
+					break
+				}
 				res.Failf("step %d: resume of stream %q from a previously issued event id %s_%d answered %d: %s", i, sr.sid, sr.sid, idx, ex.Status(), ex.Written())
 			}
 			sr.exs = append(sr.exs, e)
@@ -559,6 +577,13 @@ func runInBubble(s Script) (res vt.Result) {
 			// beginning, which the property does not speak about: only judged through ids.
 			ex := do("GET", "", nil)
 			if ex != nil && ex.Status() == 409 && racing {
+				standalone.exs = append(standalone.exs, &exch{ex: ex, from: -1, conflict: true})
+				break
+			}
+			if ex != nil && purged && ex.Status() >= 400 {
+				// The SDK replays the standalone stream from its beginning for a GET without Last-Event-ID;
+				// after a purge that beginning is gone. Outside the property (only counted).
+				res.Class(fmt.Sprintf("fresh_standalone_get_after_purge_answered_%d", ex.Status()))
 				standalone.exs = append(standalone.exs, &exch{ex: ex, from: -1, conflict: true})
 				break
 			}
@@ -607,6 +632,11 @@ func runInBubble(s Script) (res vt.Result) {
 					res.Failf("step %d: resume of the standalone stream refused with 409 although nothing is attached", i)
 				}
 			default:
+				if purged && ex.Status() >= 400 && ex.Status() < 500 {
+					e.conflict = true
+					res.Class("resume_refused_after_purge")
+					break
+				}
 				res.Failf("step %d: resume of the standalone stream from _%d answered %d: %s", i, idx, ex.Status(), ex.Written())
 			}
 			standalone.exs = append(standalone.exs, e)
@@ -631,6 +661,10 @@ func runInBubble(s Script) (res vt.Result) {
 	}
 	synctest.Wait()
 	check(len(s.Steps))
+	if purged {
+		// what "stays obtainable" after a purge depends on what the store evicted: not judged
+		return finish(res, s, &desc, nt)
+	}
 	var lastKnown *streamRec
 	for _, sr := range streams {
 		if sr.known {
@@ -700,7 +734,7 @@ func finish(res vt.Result, s Script, desc *strings.Builder, nt bool) vt.Result {
 		res.Class("no_priming")
 	}
 	d := desc.String()
-	for _, c := range []struct{ sub, class string }{{"R", "request_stream_resume"}, {"S", "standalone_resume"}, {"x", "cut"}, {"F", "finished"}, {"H", "handler_closed_its_stream"}} {
+	for _, c := range []struct{ sub, class string }{{"R", "request_stream_resume"}, {"S", "standalone_resume"}, {"x", "cut"}, {"F", "finished"}, {"H", "handler_closed_its_stream"}, {"U", "store_purged"}} {
 		if strings.Contains(d, c.sub) {
 			res.Class(c.class)
 		}
@@ -727,6 +761,6 @@ func TestC08_OneP(t *testing.T) {
 	defer runtime.GOMAXPROCS(runtime.GOMAXPROCS(1))
 	onePProp.Check(t)
 }
-func TestReplay(t *testing.T)   { theT = t; vt.Replay(t) }
-func TestRegress(t *testing.T)  { theT = t; vt.Regress(t, "C08") }
-func TestKnown(t *testing.T)    { theT = t; vt.Known(t, "C08") }
+func TestReplay(t *testing.T)  { theT = t; vt.Replay(t) }
+func TestRegress(t *testing.T) { theT = t; vt.Regress(t, "C08") }
+func TestKnown(t *testing.T)   { theT = t; vt.Known(t, "C08") }
